@@ -90,6 +90,7 @@ func (e *Exec) floorDiv(t *Term, k int64) *Term { return e.tb.IDivE(t, e.tb.Inti
 
 func (w *World) registerTime() {
 	tm := func(v Value) *Term { return v.(TimeV).NS }
+	offOf := func(v Value) int64 { return v.(TimeV).OffSec }
 	w.reg("time.Now", func(e *Exec, fn *ssa.Function, a []Value) Value { return e.now() })
 	w.reg("time.Since", func(e *Exec, fn *ssa.Function, a []Value) Value {
 		n := e.now()
@@ -113,7 +114,7 @@ func (w *World) registerTime() {
 		})
 	}
 	w.reg("(time.Time).Add", func(e *Exec, fn *ssa.Function, a []Value) Value {
-		return TimeV{NS: e.tb.IAdd(tm(a[0]), e.durToInt(a[1].(*Term)))}
+		return TimeV{NS: e.tb.IAdd(tm(a[0]), e.durToInt(a[1].(*Term))), OffSec: offOf(a[0])}
 	})
 	w.reg("(time.Time).Sub", func(e *Exec, fn *ssa.Function, a []Value) Value {
 		return e.intToInt64(e.saturate64(e.tb.ISub(tm(a[0]), tm(a[1]))))
@@ -139,7 +140,7 @@ func (w *World) registerTime() {
 		return e.intToInt64(e.floorDiv(tm(a[0]), 1_000_000_000))
 	})
 	ident := func(e *Exec, fn *ssa.Function, a []Value) Value { return a[0] }
-	w.reg("(time.Time).UTC", ident)
+	w.reg("(time.Time).UTC", func(e *Exec, fn *ssa.Function, a []Value) Value { return TimeV{NS: tm(a[0])} })
 	w.reg("(time.Time).Local", ident)
 	w.reg("(time.Time).In", ident)
 	w.reg("(time.Time).Round", func(e *Exec, fn *ssa.Function, a []Value) Value {
@@ -158,12 +159,12 @@ func (w *World) registerTime() {
 			if d.I.Sign() <= 0 {
 				return a[0]
 			}
-			return TimeV{NS: e.tb.ISub(t, e.tb.IModE(e.tb.IAdd(t, k), d))}
+			return TimeV{NS: e.tb.ISub(t, e.tb.IModE(e.tb.IAdd(t, k), d)), OffSec: offOf(a[0])}
 		}
 		if e.branch(e.tb.ILe(d, e.tb.Inti(0))) {
 			return a[0]
 		}
-		return TimeV{NS: e.tb.ISub(t, e.tb.IModE(e.tb.IAdd(t, k), d))}
+		return TimeV{NS: e.tb.ISub(t, e.tb.IModE(e.tb.IAdd(t, k), d)), OffSec: offOf(a[0])}
 	})
 	w.reg("(time.Time).AddDate", func(e *Exec, fn *ssa.Function, a []Value) Value {
 		y, m, d := a[1].(*Term), a[2].(*Term), a[3].(*Term)
@@ -171,7 +172,7 @@ func (w *World) registerTime() {
 		mc, ok2 := e.concInt(m, niInt)
 		if ok1 && ok2 && yc == 0 && mc == 0 {
 			day := e.tb.Inti(86400_000_000_000)
-			return TimeV{NS: e.tb.IAdd(tm(a[0]), e.tb.IMul(e.durToInt(d), day))}
+			return TimeV{NS: e.tb.IAdd(tm(a[0]), e.tb.IMul(e.durToInt(d), day)), OffSec: offOf(a[0])}
 		}
 		if t := tm(a[0]); t.Const && ok1 && ok2 {
 			if dc, ok := e.concInt(d, niInt); ok {
@@ -180,10 +181,10 @@ func (w *World) registerTime() {
 				sec := new(big.Int)
 				ns := new(big.Int)
 				sec.DivMod(t.I, big.NewInt(1_000_000_000), ns)
-				r := time.Unix(sec.Int64(), ns.Int64()).UTC().AddDate(int(yc), int(mc), int(dc))
+				r := time.Unix(sec.Int64(), ns.Int64()).In(time.FixedZone("", int(offOf(a[0])))).AddDate(int(yc), int(mc), int(dc))
 				v := new(big.Int).Mul(big.NewInt(r.Unix()), big.NewInt(1_000_000_000))
 				v.Add(v, big.NewInt(int64(r.Nanosecond())))
-				return TimeV{NS: e.tb.Int(v)}
+				return TimeV{NS: e.tb.Int(v), OffSec: offOf(a[0])}
 			}
 		}
 		e.ooe("AddDate with years/months on symbolic time")
@@ -224,7 +225,11 @@ func (w *World) registerTime() {
 		if t.Const {
 			sec, ns := new(big.Int), new(big.Int)
 			sec.DivMod(t.I, big.NewInt(1_000_000_000), ns)
-			return e.strConst(time.Unix(sec.Int64(), ns.Int64()).UTC().Format(layout))
+			return e.strConst(time.Unix(sec.Int64(), ns.Int64()).In(time.FixedZone("", int(offOf(a[0])))).Format(layout))
+		}
+		if off := offOf(a[0]); off != 0 {
+			// wall clock of a fixed-offset location
+			t = e.tb.IAdd(t, e.tb.Int(new(big.Int).Mul(big.NewInt(off), big.NewInt(1_000_000_000))))
 		}
 		if comps := numericLayout(layout, e.timeFmtDigits); comps != nil && e.mode == "lia" {
 			// Fixed-width numeric layout built from "2006", "01", "02", "15" and
@@ -314,9 +319,29 @@ func (w *World) registerTime() {
 			}
 			v := new(big.Int).Mul(big.NewInt(r.Unix()), big.NewInt(1_000_000_000))
 			v.Add(v, big.NewInt(int64(r.Nanosecond())))
-			return TupleV{TimeV{NS: e.tb.Int(v)}, e.zero(errT)}
+			// a literal with a numeric offset yields a value in that fixed zone
+			_, off := r.Zone()
+			return TupleV{TimeV{NS: e.tb.Int(v), OffSec: int64(off)}, e.zero(errT)}
 		}
 		e.ooe("time.Parse of a symbolic string")
+		return nil
+	})
+	w.reg("time.ParseInLocation", func(e *Exec, fn *ssa.Function, a []Value) Value {
+		layout := e.argStr(a[0], "time layout")
+		s := a[1].(*StrV)
+		errT := types.Universe.Lookup("error").Type()
+		if cs, ok := e.concStr(s); ok && s.Abs == nil {
+			e.stubs["time.ParseInLocation(layout, constant, loc): loc taken as UTC for text without an offset"] = true
+			r, err := time.ParseInLocation(layout, cs, time.UTC)
+			if err != nil {
+				return TupleV{e.zeroTime(), e.errorValue(err.Error())}
+			}
+			v := new(big.Int).Mul(big.NewInt(r.Unix()), big.NewInt(1_000_000_000))
+			v.Add(v, big.NewInt(int64(r.Nanosecond())))
+			_, off := r.Zone()
+			return TupleV{TimeV{NS: e.tb.Int(v), OffSec: int64(off)}, e.zero(errT)}
+		}
+		e.ooe("time.ParseInLocation of a symbolic string")
 		return nil
 	})
 	w.reg("time.LoadLocation", func(e *Exec, fn *ssa.Function, a []Value) Value {
